@@ -16,6 +16,7 @@
 
 use std::{cmp, thread};
 use std::fs::{self, canonicalize, create_dir_all, read_link, File, Metadata};
+use std::io::ErrorKind;
 use std::path::{Path, PathBuf};
 use std::sync::Arc;
 use std::sync::atomic::{AtomicBool, Ordering};
@@ -201,7 +202,14 @@ pub fn tree_walker(
             .next_back()
             .ok_or(XcpError::InvalidSource("Failed to find source directory name."))?;
 
-        let target_base = if dest.exists() && dest.is_dir() && !config.no_target_directory {
+        // Only "not found" means the destination is absent; any other
+        // failure to examine it must not silently change the mapping.
+        let dest_is_dir = match dest.metadata() {
+            Ok(meta) => meta.is_dir(),
+            Err(e) if e.kind() == ErrorKind::NotFound => false,
+            Err(e) => return Err(e.into()),
+        };
+        let target_base = if dest_is_dir && !config.no_target_directory {
             dest.join(sourcedir)
         } else {
             dest.to_path_buf()
@@ -234,7 +242,12 @@ pub fn tree_walker(
             };
 
             // symlink_metadata: a dangling link is still an existing entry.
-            if config.no_clobber && target.symlink_metadata().is_ok() {
+            let target_exists = match target.symlink_metadata() {
+                Ok(_) => true,
+                Err(e) if e.kind() == ErrorKind::NotFound => false,
+                Err(e) => return Err(e.into()),
+            };
+            if config.no_clobber && target_exists {
                 let msg = "Destination file exists and --no-clobber is set.";
                 stats.send(StatusUpdate::Error(
                     XcpError::DestinationExists(msg, target)))?;
